@@ -46,6 +46,7 @@ type connConfigValues struct {
 	certificateSignatureSchemes []signaturehash.Algorithm
 	ellipticCurves              []elliptic.Curve
 	serverName                  string
+	verifyServerName            string
 }
 
 func newConnConfigValues(config *dtlsConfig) (connConfigValues, error) {
@@ -84,6 +85,7 @@ func newConnConfigValues(config *dtlsConfig) (connConfigValues, error) {
 		certificateSignatureSchemes: certSignatureSchemes,
 		ellipticCurves:              effectiveEllipticCurves(config.EllipticCurves),
 		serverName:                  effectiveServerName(config.ServerName),
+		verifyServerName:            config.ServerName,
 	}, nil
 }
 
@@ -268,6 +270,7 @@ func newHandshakeConfig(
 		LocalSRTPProtectionProfiles:   config.SRTPProtectionProfiles,
 		LocalSRTPMasterKeyIdentifier:  config.SRTPMasterKeyIdentifier,
 		ServerName:                    configValues.serverName,
+		VerifyServerName:              configValues.verifyServerName,
 		SupportedProtocols:            config.SupportedProtocols,
 		ClientAuth:                    dtlsconfig.ClientAuthType(config.ClientAuth),
 		LocalCertificates:             config.Certificates,
